@@ -56,11 +56,17 @@ func (f *TimeField) GenReadFrom() (string, error) {
 	g.printlnf("{")
 	g.printlnf("timeInt := uint64(0)")
 	g.printlne(GenNaturalNumberDecode("timeInt"))
+	// time.Duration counts nanoseconds in an int64: a number of milliseconds above
+	// MaxInt64/10^6 (about 292 years) wraps around, mostly to a negative duration.
+	// Such a period is kept as the longest Duration instead.
+	g.printlnf("tempVal := time.Duration(1<<63 - 1)")
+	g.printlnf("if timeInt <= uint64(tempVal/time.Millisecond) {")
+	g.printlnf("tempVal = time.Duration(timeInt) * time.Millisecond")
+	g.printlnf("}")
 	if f.opt {
-		g.printlnf("tempVal := time.Duration(timeInt) * time.Millisecond")
 		g.printlnf("value.%s = &tempVal", f.name)
 	} else {
-		g.printlnf("value.%s = time.Duration(timeInt) * time.Millisecond", f.name)
+		g.printlnf("value.%s = tempVal", f.name)
 	}
 	g.printlnf("}")
 	return g.output()
